@@ -17,12 +17,12 @@ pub fn def() -> CheckDef {
         id: "C05",
         level: "fault_enumeration",
         cases: |t| match t {
-            Tier::Quick => 40,
+            Tier::Quick => 48,
             Tier::Thorough => 2_000,
         },
         gen,
         run,
-        rule: "one case = one base image (a drawn history through the library, or a drawn layout by the independent writer; V3/V4) and the ENUMERATION of every single-field corruption the independent parser can locate - every header field, used/first-unused/last DIFAT slots, every FAT and MiniFAT cell (capped), every field of every directory entry - times a value palette (0, 1, self, +-1, n-1, n, n+1, MAXREGSECT, the five special values, 63/64/4095/4096, 2^32, 2^63, u64::MAX, chain starts), plus truncation at every sector boundary +-1 and drawn offsets, extensions, bit flips biased to structural sectors, lost and misdirected sector writes, mid-operation crash / torn-write images of the last build operation at (a capped set of) seam calls, and drawn pairs of the above. Each damaged image is opened in both modes and, if accepted, walked, listed, every entry looked up, every stream read (read_to_end, fill_buf/consume, seeks to 0 / mid / len / len+1 / i64 and u64 extremes each followed by a read). Oracle: Ok or Err; no panic; per-call seam-step budget; peak live memory <= 64 MiB + 64 x image length. sub_runs = damaged images probed. Non-trivial: at least one damaged image was ACCEPTED by open and read; distinct = distinct damaged-image hashes.",
+        rule: "one case = one base image (a drawn history through the library, or a drawn layout by the independent writer; V3/V4; cases 0-8 are the fuzz regressions shipped with the crate, cases 9-16 share one 7.3 MB V3 base with a DIFAT sector whose corruptions are spread over them) and the ENUMERATION of every single-field corruption the independent parser can locate - every header field, used/first-unused/last DIFAT slots, every FAT and MiniFAT cell (capped), every field of every directory entry - times a value palette (0, 1, self, +-1, n-1, n, n+1, MAXREGSECT, the five special values, 63/64/4095/4096, 2^32, 2^63, u64::MAX, chain starts), plus truncation at every sector boundary +-1 and drawn offsets, extensions, bit flips biased to structural sectors, lost and misdirected sector writes, mid-operation crash / torn-write images of the last build operation at (a capped set of) seam calls, and drawn pairs of the above. Each damaged image is opened in both modes and, if accepted, walked, listed, every entry looked up, every stream read (read_to_end, fill_buf/consume, seeks to 0 / mid / len / len+1 / i64 and u64 extremes each followed by a read). Oracle: Ok or Err; no panic; per-call seam-step budget; peak live memory <= 64 MiB + 64 x image length. sub_runs = damaged images probed. Non-trivial: at least one damaged image was ACCEPTED by open and read; distinct = distinct damaged-image hashes.",
         assumptions: &["termination is judged by a seam-step budget per API call (1e6 + 200 per 64 bytes of image) and by the supervisor's CPU watchdog for loops that do no I/O", "uniformly random byte strings (which die at the signature check) are not the target; the 11 fuzz regressions shipped in /repo/tests are included as base images of the first cases"],
         cpu_limit_s: 120,
         fault_kinds: "F-FC field corruption (enumerated), F-BF bit flips, F-TR truncate/extend, F-LW lost write, F-MW misdirected write, F-CR/F-WT mid-operation crash images",
@@ -30,6 +30,9 @@ pub fn def() -> CheckDef {
         expect_probes: &["damaged_images_accepted_by_open"],
     }
 }
+
+/// the corruptions of the (7 MB) DIFAT base are spread over this many cases
+const DIFAT_SLICES: usize = 8;
 
 const FUZZ_FILES: &[&str] = &[
     "infinite_loops_fuzzed/loop_in_alloc",
@@ -51,6 +54,22 @@ pub fn gen(seed: u64, idx: u64, _tier: Tier) -> Case {
     if (idx as usize) < FUZZ_FILES.len() {
         c.mode = "fuzz-regression".into();
         c.params.insert("fuzz_file".into(), idx as i64);
+        return c;
+    }
+    if (idx as usize) >= FUZZ_FILES.len() && (idx as usize) < FUZZ_FILES.len() + DIFAT_SLICES {
+        c.params.insert("slice".into(), (idx as usize - FUZZ_FILES.len()) as i64);
+        c.params.insert("nslices".into(), DIFAT_SLICES as i64);
+        c.params.insert("seed".into(), 5); // the same base and the same enumeration for every slice
+        // a V3 file with > 109 FAT sectors: DIFAT sectors and their chain become corruptible
+        c.mode = "difat-base".into();
+        c.version = 3;
+        c.ops = vec![
+            crate::ops::Op::WriteWhole { path: "/small".into(), len: 100, nonce: 1 },
+            crate::ops::Op::HCreate { h: 0, path: "/big".into() },
+            crate::ops::Op::HSetLen { h: 0, n: 7_250_000 },
+            crate::ops::Op::HDrop { h: 0 },
+            crate::ops::Op::WriteWhole { path: "/mid".into(), len: 5000, nonce: 3 },
+        ];
         return c;
     }
     if idx % 4 == 3 {
@@ -161,40 +180,72 @@ pub fn probe(bytes: &[u8], bufsize: Option<usize>) -> Probe {
     out
 }
 
-pub fn all_mutations(base: &images::Base, case: &Case, rng: &mut Rng, thorough_caps: bool) -> Vec<(String, &'static str, Vec<u8>)> {
+/// A damaged image, produced on demand (bases can be several MB).
+pub enum Damage {
+    One(corrupt::Mutation),
+    Two(corrupt::Mutation, corrupt::Mutation),
+    Image(String, Vec<u8>),
+}
+
+impl Damage {
+    pub fn desc(&self) -> String {
+        match self {
+            Damage::One(m) => m.desc.clone(),
+            Damage::Two(a, b) => format!("{} + {}", a.desc, b.desc),
+            Damage::Image(d, _) => d.clone(),
+        }
+    }
+    pub fn kind(&self) -> &'static str {
+        match self {
+            Damage::One(m) => m.kind,
+            Damage::Two(a, _) => a.kind,
+            Damage::Image(..) => "F-CR",
+        }
+    }
+    pub fn image(&self, base: &[u8]) -> Vec<u8> {
+        match self {
+            Damage::One(m) => m.apply(base),
+            Damage::Two(a, b) => b.apply(&a.apply(base)),
+            Damage::Image(_, i) => i.clone(),
+        }
+    }
+}
+
+pub fn all_mutations(base: &images::Base, case: &Case, rng: &mut Rng, thorough_caps: bool) -> Vec<Damage> {
     let p = imgck::check(&base.image);
     let l = &p.layout;
-    let mut out: Vec<(String, &'static str, Vec<u8>)> = vec![];
-    let (cc, ce) = if thorough_caps { (400, 64) } else { (96, 24) };
+    let mut out: Vec<Damage> = vec![];
+    let big = base.image.len() > (1 << 20);
+    let (cc, ce) = if big { (40, 12) } else if thorough_caps { (400, 64) } else { (96, 24) };
     if l.sector_len > 0 {
         let fm = corrupt::field_mutations(&base.image, l, cc, ce);
         // drawn pairs of field corruptions
         let mut pairs = vec![];
         if fm.len() > 2 {
             for _ in 0..(fm.len() / 8).min(300) {
-                let a = &fm[rng.usize_below(fm.len())];
-                let b = &fm[rng.usize_below(fm.len())];
-                let img = b.apply(&a.apply(&base.image));
-                pairs.push((format!("{} + {}", a.desc, b.desc), "F-FC", img));
+                let a = fm[rng.usize_below(fm.len())].clone();
+                let b = fm[rng.usize_below(fm.len())].clone();
+                pairs.push(Damage::Two(a, b));
             }
         }
-        for m in &fm {
-            out.push((m.desc.clone(), m.kind, m.apply(&base.image)));
+        for m in fm {
+            out.push(Damage::One(m));
         }
         out.extend(pairs);
-        for m in corrupt::bulk_mutations(&base.image, l, base.older.as_deref(), rng, 60) {
-            out.push((m.desc.clone(), m.kind, m.apply(&base.image)));
+        for m in corrupt::bulk_mutations(&base.image, l, base.older.as_deref(), rng, if big { 20 } else { 60 }) {
+            // extensions / misdirected writes carry whole sectors only: fine for big bases too
+            out.push(Damage::One(m));
         }
     } else {
         // unparseable base (fuzz regressions): flips and truncations only
         let fake = imgck::Layout { sector_len: 512, ..Default::default() };
         for m in corrupt::bulk_mutations(&base.image, &fake, None, rng, 200) {
-            out.push((m.desc.clone(), m.kind, m.apply(&base.image)));
+            out.push(Damage::One(m));
         }
     }
-    if matches!(case.init, Init::Empty) && !case.ops.is_empty() {
+    if matches!(case.init, Init::Empty) && !case.ops.is_empty() && !big {
         for (d, img) in images::crash_images(case.version, &case.ops, 40, rng) {
-            out.push((d, "F-CR", img));
+            out.push(Damage::Image(d, img));
         }
     }
     out
@@ -241,6 +292,9 @@ pub fn run(case: &Case, _known: &BTreeSet<String>) -> Outcome {
             return o;
         }
     };
+    // big bases: the default buffer (with a 1 KiB buffer every refill re-walks the whole
+    // 14 000-sector chain, which makes each probe take seconds without testing anything new)
+    let bufsize = if base.image.len() > (1 << 20) { None } else { bufsize };
     let mut rng = Rng::new(case.param("seed", 1) as u64 ^ 0x55);
     // the undamaged base first
     let p0 = probe(&base.image, bufsize);
@@ -255,7 +309,13 @@ pub fn run(case: &Case, _known: &BTreeSet<String>) -> Outcome {
     let mut accepted = 0u64;
     let mut marker = Case::new("C05", "single-image", case.version);
     marker.params.insert("seed".into(), case.param("seed", 1));
-    for (desc, kind, img) in &muts {
+    let (slice, nslices) = (case.param("slice", 0) as usize, case.param("nslices", 1).max(1) as usize);
+    for (mi, dmg) in muts.iter().enumerate() {
+        if mi % nslices != slice {
+            continue;
+        }
+        let img = &dmg.image(&base.image);
+        let (desc, kind) = (&dmg.desc(), dmg.kind());
         crate::subcase::set(&marker, img);
         let p = probe(img, bufsize);
         o.stats.sub_runs += 1;
